@@ -1,10 +1,14 @@
 /-
 Core D, layer 1 — the ring as an abstract machine: only the cursor, gate, cell
-and commit steps, each guarded by what the acting thread is entitled to know.
-It carries the whole safety argument of C14 (`Proofs/RingAbs.lean`: `AInv` is
+and commit steps, each with the guard that makes it safe: the producer writes
+and commits only below `cseq + size`, the consumer commits only below `pseq`.
+It carries the whole arithmetic of C14 (`Proofs/RingAbs.lean`: `AInv` is
 preserved by every step); the real program (`Model/Ring.lean`, layer 2) maps
 onto it step by step (`sim_step`): every layer-2 step is a layer-1 step or
-changes nothing the abstraction sees.
+changes nothing the abstraction sees.  That the producer's guard holds is what
+layer 2 shows from what the producer is entitled to KNOW — a lower bound of the
+consumer cursor, which only moves forward: the gate (`waitForWriteSpace`), or
+the cursor value `ReadFrom` has loaded itself (repository commit 8f682d1).
 -/
 namespace Mqtt.Model.RingAbs
 
@@ -21,12 +25,12 @@ def upd (f : Nat → UInt8) (k : Nat) (v : UInt8) : Nat → UInt8 := fun i => if
 inductive AStep (size : Nat) (src : Nat → UInt8) : A → A → Prop
   /-- the producer learns a newer consumer position -/
   | learnGate (a : A) (g : Nat) : a.gate ≤ g → g ≤ a.cseq → AStep size src a { a with gate := g }
-  /-- the producer writes the stream byte of a position inside its reservation `[pseq, gate+size)` -/
-  | write (a : A) (pos : Nat) : a.pseq ≤ pos → pos < a.gate + size →
+  /-- the producer writes the stream byte of a position inside the free part `[pseq, cseq+size)` -/
+  | write (a : A) (pos : Nat) : a.pseq ≤ pos → pos < a.cseq + size →
       AStep size src a { a with cell := upd a.cell (pos % size) (src pos) }
   /-- the producer commits `n` written positions -/
   | commitP (a : A) (n : Nat) : (∀ i, i < n → a.cell ((a.pseq + i) % size) = src (a.pseq + i)) →
-      (0 < n → a.pseq + n ≤ a.gate + size) → AStep size src a { a with pseq := a.pseq + n }
+      (0 < n → a.pseq + n ≤ a.cseq + size) → AStep size src a { a with pseq := a.pseq + n }
   /-- the consumer commits `n` positions below `pseq`, obtaining the bytes in their cells -/
   | commitC (a : A) (n : Nat) : a.cseq + n ≤ a.pseq →
       AStep size src a { a with cseq := a.cseq + n,
